@@ -146,7 +146,7 @@ def tabuScan (val : Nat → Rat) (best : Rat) (tabuSet : List Nat) :
         if v < b then tabuScan val best tabuSet ms (e + 1) (some (v, e, m))
         else tabuScan val best tabuSet ms (e + 1) (some (b, i, mv))
 
-/-- One iteration with candidate moves `ms` (already shuffled).  `cooldown ≥ 1`. -/
+/-- One iteration with candidate moves `ms` (already shuffled). -/
 def tabuStep (val : Nat → Rat) (cooldown maxNoImprove stopAt : Nat) (s : TabuSt) (ms : List Nat) :
     TabuSt :=
   if s.done then s else
@@ -157,8 +157,9 @@ def tabuStep (val : Nat → Rat) (cooldown maxNoImprove stopAt : Nat) (s : TabuS
   | (e, some (b, i, mv)) =>
     let full := s.tabuList.length == cooldown
     let set1 := if full then s.tabuSet.erase (s.tabuList.headD 0) else s.tabuSet
-    let list1 := (if full then s.tabuList.drop 1 else s.tabuList) ++ [mv]
-    let set2 := if set1.contains mv then set1 else mv :: set1
+    -- `cooldown = 0` (no memory) after the proposed repair C19_tabu_cooldown_zero
+    let list1 := if cooldown = 0 then s.tabuList else (if full then s.tabuList.drop 1 else s.tabuList) ++ [mv]
+    let set2 := if cooldown = 0 then s.tabuSet else if set1.contains mv then set1 else mv :: set1
     let improved := decide (b < s.core.best)
     let core : Core := if improved then ⟨b, i, e⟩ else { s.core with evals := e }
     let bestIter := if improved then iteration else s.bestIter
